@@ -1,6 +1,7 @@
 #!/bin/sh
 # seed_batch.sh <outdir> <src:id> ...   — for use under `vp run`: builds the framework in this snapshot, imports each
 # seeded change (confirmation + all checks through VERIF_REPO worktrees) and copies seeded/<id>/ to <outdir>.
+# SEED_PROPS="C16 C17 …" restricts the checks run against each change (the meta.json records which ones ran).
 set -e
 cd "$(dirname "$0")/.."
 out=$1; shift
@@ -9,7 +10,7 @@ mkdir -p "$out"
 for pair in "$@"; do
   src=${pair%%:*}; id=${pair##*:}
   echo "=== $id from $src"
-  python3 tools/seed_import.py "$src" "$id" || echo "IMPORT FAILED $id"
+  python3 tools/seed_import.py "$src" "$id" $SEED_PROPS || echo "IMPORT FAILED $id"
   [ -d seeded/$id ] && cp -r seeded/$id "$out/"
 done
 echo batch done
